@@ -464,4 +464,20 @@ example : ((do let bios ← writeRecord rSpan; let r' ← readRecordT false 300 
     ((do let bios ← writeRecord rSpan; readRecordT false 300 false bios : E Rec).toOption = none) ∧
     ((do let bios ← writeRecord rSpan; readRecordT true 300 false bios : E Rec).toOption = none) := by decide +kernel
 
+/-! ### the clean-up of `misc_feature` locations on reading (`Record.from_biopython`, bacterial runs) -/
+
+/-- whatever the feature, the clean-up only ever drops exons contained in others: the exons that remain are in the
+    order they were written in — no feature has its exon order changed by being read -/
+theorem misc_feature_cleanup_keeps_exon_order (b : Bio) : (prefilter b).loc.parts.Sublist b.loc.parts :=
+  prefilter_sublist b
+
+/-- a reverse-strand `misc_feature` across the origin of a 2000-base record, `complement(join(1941..2000,1..150))` -/
+def miscAcrossOrigin : Loc := .compound [⟨0, 150, .rev⟩, ⟨1940, 2000, .rev⟩]
+/-- non-vacuity, and the seeded variant refuted: the location does bridge the origin, the clean-up as written leaves it
+    alone, while the look with `allow_reversing=True` would answer "linear" and leave the two exons swapped -/
+theorem reversing_look_would_swap_exons :
+    bridgesOrigin miscAcrossOrigin = true ∧
+    (prefilter ⟨miscAcrossOrigin, "misc_feature", []⟩).loc = miscAcrossOrigin ∧
+    bridgesOriginReversing miscAcrossOrigin = (false, .compound [⟨1940, 2000, .rev⟩, ⟨0, 150, .rev⟩]) := by decide +kernel
+
 end ASV.C10
